@@ -169,3 +169,40 @@ def position_roundtrip_ok(c: str, si: int, which: int) -> bool:
         return ret(False)
     d = sl[0].relation[0]
     return ret(sl[0].tag == ct.SelectorTag('p', None) and d.ids == (v,) and d.classes == ('k',) and d.rel_type == '>')
+
+
+# Bounded enumeration companion of position_roundtrip_ok: the same shapes and questions for every code point up to U+02FF and
+# the boundary code points, run natively once the solver has fixed the block index (the symbolic variant is a time-boxed
+# search and reaches a particular character only when its path happens to be explored).
+ENUM_POINTS = list(range(0, 0x300)) + [0x2028, 0x2029, 0xd7ff, 0xd800, 0xdbff, 0xdc00, 0xdfff, 0xe000, 0xfdd0, 0xfeff,
+                                       0xfffd, 0xfffe, 0xffff, 0x10000, 0x1f600, 0xe0001, 0x10fffe, 0x10ffff]
+ENUM_BLOCKS = part([ENUM_POINTS[i:i + 16] for i in range(0, len(ENUM_POINTS), 16)])
+TWO = ['a', '-', '\n', ' ', '0', '\\', '\x00', '\x7f', '\x80', 'é', '"']
+
+
+def position_enum_ok(bi: int) -> bool:
+    """
+    pre: 0 <= bi < len(ENUM_BLOCKS)
+    post: _
+    """
+    bi = concrete(bi)
+    with notrace():
+        ok = True
+        for o in ENUM_BLOCKS[bi]:
+            c = chr(o)
+            cands = [pre + c + post for pre, post in SHAPES] + [c] + [c + t for t in TWO] + [t + c for t in TWO]
+            for s in cands:
+                v = _value(s)
+                esc = cp.escape(s)
+                try:
+                    ok = ok and _only(sv.compile('#' + esc), ids=(v,)) and _only(sv.compile('.' + esc), classes=(v,))
+                    sl = sv.compile('div#' + esc + '.k > p').selectors
+                    ok = ok and len(sl) == 1 and len(sl[0].relation) == 1 and sl[0].relation[0].ids == (v,) and \
+                        sl[0].relation[0].classes == ('k',) and sl[0].tag == ct.SelectorTag('p', None)
+                    at = sv.compile('[t=' + esc + ']').selectors
+                    ok = ok and len(at) == 1 and len(at[0].attributes) == 1 and at[0].attributes[0].pattern.fullmatch(v) is not None
+                except Exception:
+                    ok = False
+                if not ok:
+                    return ret(False)
+    return ret(ok)
